@@ -1,1 +1,131 @@
-From V Require Import C05.Model.
+(* Property C05 — the Volcano Job lifecycle follows its state machine and reports
+   truthful counters.  Property theorems only; each is closed by [exact] of a
+   lemma of C05/Lemmas.v about the model C05/Model.v (killPods, syncJob,
+   applyPolicies, state/*.go tables), followed by its assumptions.
+   Statuses: [v_st] is the job status in the controller's cache (what it acts
+   upon), [w_st] the one on the API server. *)
+From Coq Require Import ZArith List Bool.
+From V Require Import C05.Model C05.Laws C05.Lemmas.
+Import ListNotations.
+Open Scope Z_scope.
+
+(* every processed request, whatever the spec, pods, views, request and injected faults:
+   the phase moves only along the transition relation [allowed] *)
+Theorem C05_phase_transition_allowed : forall w r F w' e wr,
+  step_req w r F = (w', e, wr) -> In (st_phase (v_st w')) (allowed (st_phase (v_st w))).
+Proof. exact phase_transition_allowed. Qed.
+Print Assumptions C05_phase_transition_allowed.
+
+(* Completed / Failed / Terminated: over EVERY history of requests, pod events,
+   informer syncs, spec updates and faults the phase never changes (cache and
+   API server) and no pod is ever created *)
+Theorem C05_final_phases_absorbing : forall ops w,
+  is_final (st_phase (v_st w)) = true -> st_phase (w_st w) = st_phase (v_st w) ->
+  let w' := run w ops in
+  st_phase (v_st w') = st_phase (v_st w) /\ st_phase (w_st w') = st_phase (v_st w) /\
+  incl (pod_ids (w_pods w')) (pod_ids (w_pods w)).
+Proof. exact final_phases_absorbing. Qed.
+Print Assumptions C05_final_phases_absorbing.
+
+Theorem C05_aborted_left_only_by_resume : forall w r F w' e wr,
+  step_req w r F = (w', e, wr) ->
+  st_phase (v_st w) = PhAborted -> st_phase (v_st w') <> PhAborted ->
+  apply_policies (v_spec w) (v_st w) r = AResume /\ st_phase (v_st w') = PhRestarting.
+Proof. exact aborted_left_only_by_resume. Qed.
+Print Assumptions C05_aborted_left_only_by_resume.
+
+(* the retry count changes only by +1 and exactly when Restarting is entered *)
+Theorem C05_retry_increments_once : forall w r F w' e wr,
+  step_req w r F = (w', e, wr) ->
+  let s := v_st w in let s' := v_st w' in
+  (st_retry s' = st_retry s \/
+   (st_retry s' = st_retry s + 1 /\ st_phase s' = PhRestarting /\ st_phase s <> PhRestarting)) /\
+  (st_phase s <> PhRestarting -> st_phase s' = PhRestarting -> st_retry s' = st_retry s + 1).
+Proof. exact retry_increments_once. Qed.
+Print Assumptions C05_retry_increments_once.
+
+(* Restarting with retryCount >= maxRetry: never Pending/Running again; a successful write is Failed *)
+Theorem C05_maxretry_fails : forall w r F w' e wr,
+  step_req w r F = (w', e, wr) ->
+  st_phase (v_st w) = PhRestarting -> s_maxretry (v_spec w) <= st_retry (v_st w) ->
+  (st_phase (v_st w') = PhRestarting \/ st_phase (v_st w') = PhFailed) /\
+  (wr = true -> e = false -> st_phase (v_st w') = PhFailed /\ st_phase (w_st w') = PhFailed).
+Proof. exact maxretry_fails. Qed.
+Print Assumptions C05_maxretry_fails.
+
+Theorem C05_version_monotone : forall ops w,
+  st_version (w_st w) <= st_version (v_st w) ->
+  st_version (w_st w) <= st_version (w_st (run w ops)) /\
+  st_version (w_st (run w ops)) <= st_version (v_st (run w ops)).
+Proof. exact version_monotone. Qed.
+Print Assumptions C05_version_monotone.
+
+Theorem C05_version_step : forall w r F w' e wr,
+  step_req w r F = (w', e, wr) ->
+  st_version (v_st w) <= st_version (v_st w') <= st_version (v_st w) + 1.
+Proof. exact version_step. Qed.
+Print Assumptions C05_version_step.
+
+Theorem C05_stale_request_syncs : forall sp st r,
+  r_action r = None -> r_version r < st_version st -> apply_policies sp st r = ASync.
+Proof. exact stale_request_syncs. Qed.
+Print Assumptions C05_stale_request_syncs.
+
+(* for every fault position: a failed reconciliation leaves the API server's
+   status untouched (or, for a job without a phase, at its complete initial status) *)
+Theorem C05_api_fault_no_partial_status : forall w r F w' wr,
+  step_req w r F = (w', true, wr) ->
+  w_st w' = w_st w \/ (st_phase (v_st w) = PhNone /\ w_st w' = init_status (v_spec w) (v_st w)).
+Proof. exact api_fault_no_partial_status. Qed.
+Print Assumptions C05_api_fault_no_partial_status.
+
+Theorem C05_api_status_is_cache_status_or_old : forall w r F w' e wr,
+  step_req w r F = (w', e, wr) ->
+  w_st w' = w_st w \/ w_st w' = v_st w' \/ (st_phase (v_st w) = PhNone /\ w_st w' = init_status (v_spec w) (v_st w)).
+Proof. exact api_status_is_cache_status_or_old. Qed.
+Print Assumptions C05_api_status_is_cache_status_or_old.
+
+(* counters: the full-strength statement is REFUTED on the faithful model (defect F2);
+   what killPods writes instead is characterised for every input *)
+Theorem C05_counters_partition_refuted : ~ counters_partition_statement.
+Proof. exact counters_partition_refuted. Qed.
+Print Assumptions C05_counters_partition_refuted.
+
+Theorem C05_kill_zeroes_counters : forall w rt tg u F w',
+  kill_pods w rt tg u F = (w', false, true) -> st_cnt (w_st w') = c0 /\ st_tsc (w_st w') = [].
+Proof. exact kill_zeroes_counters. Qed.
+Print Assumptions C05_kill_zeroes_counters.
+
+Theorem C05_counters_partition_refuted_out_of_sync :
+  exists w', step_req oos_world sync_req [] = (w', false, true) /\ fresh_world oos_world /\
+             partition_ok (w_st w') (w_pods w') = false /\
+             st_cnt (w_st w') = mkC 0 1 0 0 0 /\ st_term (w_st w') = 1 /\ length (w_pods w') = 1%nat.
+Proof. exact counters_partition_refuted_out_of_sync. Qed.
+Print Assumptions C05_counters_partition_refuted_out_of_sync.
+
+Theorem C05_counters_partition_refuted_pg_pending :
+  exists w', step_req pgpending_world sync_req [] = (w', false, true) /\ fresh_world pgpending_world /\
+             partition_ok (w_st w') (w_pods w') = false /\ st_term (w_st w') = 1 /\ w_pods w' = [].
+Proof. exact counters_partition_refuted_pg_pending. Qed.
+Print Assumptions C05_counters_partition_refuted_pg_pending.
+
+(* non-vacuity *)
+Example C05_nonvacuous_final :
+  final_inv f2_world /\
+  st_phase (v_st (run f2_world [OReq sync_req []; OSyncPods; OReq sync_req [FStatus 0]])) = PhCompleted.
+Proof. exact final_inv_nonvacuous. Qed.
+Example C05_nonvacuous_maxretry :
+  let w := init_world one_task_spec (mkStatus PhRestarting 3 1 1 c0 1 [] false true) [] None in
+  st_phase (v_st w) = PhRestarting /\ s_maxretry (v_spec w) <= st_retry (v_st w) /\
+  exists w', step_req w sync_req [] = (w', false, true) /\ st_phase (w_st w') = PhFailed.
+Proof. exact maxretry_nonvacuous. Qed.
+Example C05_nonvacuous_aborted :
+  let w := init_world one_task_spec (mkStatus PhAborted 0 1 1 c0 0 [] false true) [] None in
+  let r := mkReq ECommandIssued (Some AResume) None None 0 0 1 in
+  exists w', step_req w r [] = (w', false, true) /\ st_phase (v_st w') = PhRestarting /\ st_retry (v_st w') = 1.
+Proof. exact aborted_nonvacuous. Qed.
+Example C05_nonvacuous_fault :
+  let w := init_world one_task_spec (mkStatus PhNone 0 0 0 c0 0 [] true false) [] (Some PgRunning) in
+  exists w', step_req w sync_req [FCreate 1 0] = (w', true, true) /\
+             w_st w' = init_status one_task_spec (v_st w) /\ w_pods w' = [].
+Proof. exact fault_nonvacuous. Qed.
